@@ -109,6 +109,39 @@ def numEdges (F : List Face) : Nat := (edges F).length
 /-- `ConvexPolyhedron.num_edges`: `num_vertices + num_faces - 2` -/
 def numEdgesConvex (numVertices numFaces : Nat) : Int := (numVertices : Int) + (numFaces : Int) - 2
 
+/-! ### the `edges` cache (`@cached_property`) and its invalidation -/
+
+/-- the part of a `Polyhedron`'s state the edge observables depend on: the current faces and the
+    entry `self.__dict__["edges"]` of the `cached_property` (absent = `none`) -/
+structure EdgeCache where
+  faces : List Face
+  cache : Option (List Edge)
+
+/-- what a history does to that state -/
+inductive EdgeOp where
+  /-- reading `edges` / `num_edges` / `edge_vectors` / `edge_lengths`: all go through `self.edges` -/
+  | read
+  /-- `sort_faces()` / `merge_faces()` ending with the given faces: both finish with
+      `self.__dict__.pop("edges", None)` (merge_faces through the `sort_faces` it calls) -/
+  | setFaces (F : List Face)
+
+/-- `Polyhedron.__init__`: no cache entry yet -/
+def EdgeCache.init (F : List Face) : EdgeCache := ⟨F, none⟩
+
+/-- `self.edges`: the cached value when there is one, else computed from the current faces and stored -/
+def EdgeCache.readEdges (s : EdgeCache) : List Edge × EdgeCache :=
+  match s.cache with
+  | some e => (e, s)
+  | none => (edges s.faces, { s with cache := some (edges s.faces) })
+
+/-- one step of a history -/
+def EdgeCache.step (s : EdgeCache) : EdgeOp → EdgeCache
+  | .read => s.readEdges.2
+  | .setFaces F => ⟨F, none⟩
+
+/-- a whole history -/
+def EdgeCache.run (s : EdgeCache) (ops : List EdgeOp) : EdgeCache := ops.foldl EdgeCache.step s
+
 /-! ### orientation propagation (`_sort_simplices`, `Polyhedron.sort_faces`) -/
 
 /-- inner `for edge in _face_to_edges(faces[neighbor])` loop: flip the neighbour when the first of
